@@ -87,7 +87,8 @@ def r17a(ctx: Context) -> None:
         ext = site.external or ""
         if ext.endswith("set_manual_property"):
             facts = [norm(t) for t, p in guards_of(project.node, site.node) if p]
-            if facts == ["args.set_configuration"]:
+            given = [norm(a) for a in site.node.args]
+            if len(facts) == 1 and facts[0] in given and facts[0].endswith(".set_configuration"):
                 rule.ok(func_key(project, site.node), "--set applied whenever given")
             else:
                 rule.fail(func_key(project, site.node), site.where, f"--set is applied under {facts}")
